@@ -749,28 +749,37 @@ func (ex *Exec) findLoops() {
 // handed to a call: a call inside a loop may change them.
 func escapingAllocs(fn *ssa.Function) []*ssa.Alloc {
 	var out []*ssa.Alloc
+	var escapes func(v ssa.Value, depth int) bool
+	escapes = func(v ssa.Value, depth int) bool {
+		if v.Referrers() == nil || depth > 4 {
+			return depth > 4
+		}
+		for _, r := range *v.Referrers() {
+			switch x := r.(type) {
+			case *ssa.MakeClosure, *ssa.Call, *ssa.Defer, *ssa.Go, *ssa.MakeInterface, *ssa.Return, *ssa.Phi:
+				return true
+			case *ssa.Store:
+				if x.Val == v {
+					return true
+				}
+			case *ssa.FieldAddr:
+				if escapes(x, depth+1) {
+					return true
+				}
+			case *ssa.IndexAddr:
+				if escapes(x, depth+1) {
+					return true
+				}
+			case *ssa.Slice:
+				// a slice of a local array: local byte arrays live in the byte heap (their
+				// writes are heap writes); other arrays are only handed to fmt-style varargs
+			}
+		}
+		return false
+	}
 	for _, b := range fn.Blocks {
 		for _, in := range b.Instrs {
-			a, ok := in.(*ssa.Alloc)
-			if !ok || a.Referrers() == nil {
-				continue
-			}
-			esc := false
-			for _, r := range *a.Referrers() {
-				switch x := r.(type) {
-				case *ssa.MakeClosure:
-					esc = true
-				case *ssa.Call:
-					esc = true
-				case *ssa.Defer:
-					esc = true
-				case *ssa.Store:
-					if x.Val == ssa.Value(a) {
-						esc = true
-					}
-				}
-			}
-			if esc {
+			if a, ok := in.(*ssa.Alloc); ok && escapes(a, 0) {
 				out = append(out, a)
 			}
 		}
